@@ -139,13 +139,14 @@ def windowsOk (len : Nat) : List Nat → Bool
   | [_] => true
   | a :: b :: rest => decide (b - a ≥ len) && windowsOk len (b :: rest)
 
-/-- itertools `coalesce` on index ranges that touch -/
+/-- itertools `coalesce` on index ranges that touch (`cur` is the pending element) -/
+def coalesceAdjAux (cur : Nat × Nat) : List (Nat × Nat) → List (Nat × Nat)
+  | [] => [cur]
+  | y :: rest => if cur.2 = y.1 then coalesceAdjAux (cur.1, y.2) rest else cur :: coalesceAdjAux y rest
+
 def coalesceAdj : List (Nat × Nat) → List (Nat × Nat)
   | [] => []
-  | [x] => [x]
-  | x :: y :: rest =>
-    if x.2 = y.1 then coalesceAdj ((x.1, y.2) :: rest) else x :: coalesceAdj (y :: rest)
-termination_by l => l.length
+  | x :: xs => coalesceAdjAux x xs
 
 abbrev RepRange := (Nat × Nat) × List Str
 
@@ -163,14 +164,16 @@ def createRanges (cfg : Config) (m : SubMap) : List RepRange :=
 
 def rangeContains (r : Nat × Nat) (x : Nat) : Bool := decide (r.1 ≤ x) && decide (x < r.2)
 
-/-- the itertools `coalesce` of `coalesce_repetitions`: an overlapping later range is dropped -/
+/-- the itertools `coalesce` of `coalesce_repetitions`: a later range overlapping the pending one is dropped -/
+def coalesceOverlapAux (cur : RepRange) : List RepRange → List RepRange
+  | [] => [cur]
+  | y :: rest =>
+    if (rangeContains cur.1 y.1.1 || rangeContains cur.1 y.1.2) && y.1.2 != cur.1.1
+    then coalesceOverlapAux cur rest else cur :: coalesceOverlapAux y rest
+
 def coalesceOverlap : List RepRange → List RepRange
   | [] => []
-  | [x] => [x]
-  | x :: y :: rest =>
-    if (rangeContains x.1 y.1.1 || rangeContains x.1 y.1.2) && y.1.2 != x.1.1
-    then coalesceOverlap (x :: rest) else x :: coalesceOverlap (y :: rest)
-termination_by l => l.length
+  | x :: xs => coalesceOverlapAux x xs
 
 /-- `coalesce_repetitions` -/
 def coalesceRepetitions (rs : List RepRange) : List RepRange :=
